@@ -247,6 +247,30 @@ def findings_of(binary, world, variant, flavour, res, events):
     return out
 
 
+def merge_streamed_decisions(path):
+    """a concurrent world that ended in a fault could not rewrite its replay file with the explicit schedule; the
+    decisions were streamed to <path>.dec as they were taken (first scheduling phase = the concurrent one)"""
+    dec = path + ".dec"
+    if not os.path.exists(dec):
+        return
+    spec = json.load(open(path))
+    if spec.get("sched", {}).get("policy") != "replay":
+        phase, out = 0, []
+        for line in open(dec):
+            t = line.split()
+            if not t:
+                continue
+            if t[0] == "B":
+                phase += 1
+            elif t[0] == "D" and phase == 1 and len(t) == 4:
+                out.append([int(t[1]), int(t[2]), int(t[3])])
+        if phase >= 1:
+            spec["sched"]["policy"] = "replay"
+            spec["sched"]["decisions"] = out
+            json.dump(spec, open(path, "w"))
+    os.remove(dec)
+
+
 def drop_calls(prog, idx):
     """removes the calls at array positions idx; repeat_of (an array position) follows"""
     remap, k = {}, 0
@@ -265,7 +289,7 @@ def drop_calls(prog, idx):
     prog["calls"] = calls
 
 
-def minimise(binary, world, variant, flavour, path, target_cls, budget_s=45):
+def minimise(binary, world, variant, flavour, path, target_cls, budget_s=25):
     """greedy delta debugging on the explicit replay file while the same violation class persists"""
     t0 = time.time()
     spec = json.load(open(path))
@@ -361,7 +385,7 @@ def main():
     repo = "/repo"
     workers = min(16, os.cpu_count() or 4)
     runs_override = None
-    max_report = 6
+    max_report = 8
     i = 0
     while i < len(args):
         if args[i] == "--runs":
@@ -518,6 +542,7 @@ def main():
         if not os.path.exists(path):
             print("MACHINERY: could not produce a replay file for %s (run %d)" % (cls, f.run))
             return 2
+        merge_streamed_decisions(path)
         res, events, _ = replay_once(binary, path)
         got = findings_of(binary, f.world, f.variant, f.flavour, res, events)
         if not any(g.cls() == cls for g in got):
@@ -546,7 +571,12 @@ def main():
             if f.kind == "schedule-dependent-output" and r2 and res and r2.get("task_hash_serial") != res.get("task_hash_serial"):
                 other["history-dependent(serial re-execution differs from pristine serial):%s" % f.op] += len(fl_list)
                 continue
-        tries, ncalls, ndec = minimise(binary, f.world, f.variant, f.flavour, path, cls)
+        if len(violations) + len(known_hits) < 3:
+            tries, ncalls, ndec = minimise(binary, f.world, f.variant, f.flavour, path, cls)
+        else:
+            # further classes of the same batch are reported with their un-minimised (still explicit) replay
+            sp = json.load(open(path))
+            tries, ncalls, ndec = 0, len(sp["program"]["calls"]), len(sp.get("sched", {}).get("decisions", []))
         # gate: two fresh processes, identical event-log hashes, same class
         r1, e1, _ = replay_once(binary, path)
         r2, e2, _ = replay_once(binary, path)
